@@ -55,7 +55,13 @@ impl Prop for C08 {
         let kind = case.call.kind();
         r.label(kind);
         let refenc = refmodel::ref_encode(&case.call, case.env.eid_resp);
-        let (e, buf) = encode_in(&case.env, &case.call, BIG, |i| 0xC0 | (i as u8 & 0x0F));
+        let ((e, buf), (e_again, buf_again)) = encode_twice_in(&case.env, &case.call, BIG, |i| 0xC0 | (i as u8 & 0x0F));
+        if let (Enc::Ok(n1), again) = (&e, &e_again) {
+            let same = matches!(again, Enc::Ok(n2) if n2 == n1 && *n1 <= buf.len() && buf_again[..*n1] == buf[..*n1]);
+            if !same {
+                r.fail(format!("C08:{}:second_encode_differs", kind), format!("the same message encoded twice in a row on one context gives different packets (first {} bytes, then {:?})", n1, again));
+            }
+        }
         match refenc {
             RefEnc::Refuse(why) => {
                 r.nontrivial = true;
